@@ -761,6 +761,14 @@ func (e *Engine) VerifyFunc(fn *ssa.Function) (vc *VC) {
 			st.ghost[g.Name] = TV{T: init, S: s, Ty: ty}
 		}
 	}
+	if fc != nil && fc.Kind == "func" && fc.Pure && fn.Blocks != nil {
+		if fc.AssumePure {
+			vc.note("assumed pure (not checked): " + fn.String())
+		} else if !e.inferPure(fn) {
+			vc.unsupp = "contract says pure but the body (or a callee) may write state that outlives the call; use assume-pure to state it as an assumption"
+			return vc
+		}
+	}
 	f.initVisited(st)
 	if e.noSwallowActive(fc) {
 		st.ghost[noSwallowGhost] = TV{T: "false", S: "Bool", Ty: types.Typ[types.Bool]}
